@@ -154,6 +154,7 @@ def run_chunk(job, seed, lo, hi, tier, hashes_prefix=None, keep_hashes=False):
                 except (IndexError, ValueError):
                     continue  # truncated line of a dying worker
                 finished_runs.add(d["run"])
+                d["proc_lo"] = cur
                 res.fails.append(d)
             elif line.startswith("FINDING "):
                 head, _, site = line.partition(" ## ")
@@ -171,13 +172,18 @@ def run_chunk(job, seed, lo, hi, tier, hashes_prefix=None, keep_hashes=False):
             elif line == "END":
                 ended = True
         if ended and not stopped:
+            if p.returncode not in (0, None) and last_run is not None:
+                # everything was printed, yet the process did not end cleanly (e.g. corruption the
+                # allocator only notices at thread or process teardown)
+                res.fails.append({"run": last_run, "proc_lo": cur, "planhash": "", "class": "crash.at_exit", "step": -1, "site": "process",
+                                  "msg": "worker printed END but exited with status %s; stderr tail: %s" % (p.returncode, err[-300:].replace("\n", " | "))})
             break
         if stopped:
             # too many failures in this worker: do not continue this chunk
             break
         # crashed or was killed in run `last_run`
         if hung and last_run is not None and last_run in finished_runs:
-            res.fails.append({"run": last_run, "planhash": "", "class": "crash.hang", "step": -1, "site": "process", "msg": "worker wedged after run %d" % last_run})
+            res.fails.append({"run": last_run, "proc_lo": cur, "planhash": "", "class": "crash.hang", "step": -1, "site": "process", "msg": "worker wedged after run %d" % last_run})
             break
         if last_run is None:
             raise HarnessError("worker produced no output: %s\n%s" % (" ".join(cmd), err[-2000:]))
@@ -518,6 +524,15 @@ def run_job(prop, job, tier, seed, report, spec=None):
     known = load_known()
     violations = []
     accept = spec.get("accept") if spec else None
+    # a run that fails because the harness could not do its work decides nothing: never a pass
+    hf = [d for d in fails if d["class"].startswith("harness.")]
+    if hf:
+        raise HarnessError("%d run(s) of %s stopped with %s at %s: %s" % (len(hf), job.label, hf[0]["class"], hf[0]["site"], hf[0]["msg"][:300]))
+    if n > 0 and ok == 0:
+        own = [d for d in fails if not accept or accept(job.label, d["class"], d["site"], d["msg"])]
+        if not own:
+            raise HarnessError("no run of %s completed (%d failed with classes that belong to other properties: %s): nothing was explored" % (
+                job.label, len(fails), sorted({d["class"] for d in fails})[:5]))
     if accept:
         kept = []
         for d in fails:
@@ -628,22 +643,35 @@ def report_violation(prop, v, tier, seed, accept=None):
         # the failure depends on what the worker process ran before (e.g. heap state after
         # undefined behaviour): replay the worker's range of runs instead of the single plan
         lo = v.get("proc_lo")
-        if lo is not None and target.startswith("crash."):
+        if lo is not None:
             got = run_range(job, tier, seed, lo, v["run"] + 1)
-            if got is not None and got.startswith("crash."):
+            recurred = got is not None
+            if not recurred:
+                # seen once, in a worker, and not again: still a failure of the property's check (a
+                # state-dependent one - uninitialised reads, address reuse); never dropped
+                got = target
+            if True:
                 os.makedirs(os.path.join(REPLAYS, prop), exist_ok=True)
                 path = os.path.join(REPLAYS, prop, "%s-seed%d-runs%d-%d.json" % (job.label, seed, lo, v["run"]))
                 with open(path, "w") as f:
                     json.dump({"kind": "range", "property": prop, "package": job.package, "engine": job.engine, "label": job.label, "tier": tier, "seed": seed,
                                "from": lo, "to": v["run"] + 1, "violation": {"class": got, "site": "process", "message": v.get("msg", "")},
-                               "note": "the single plan of run %d does not fail in a fresh process; the worker's runs %d..%d, replayed in one process, do" % (v["run"], lo, v["run"])}, f, indent=1, sort_keys=True)
+                               "recurred_when_replayed": recurred,
+                               "note": ("the single plan of run %d does not fail in a fresh process; the worker's runs %d..%d, replayed in one process, do" % (v["run"], lo, v["run"])) if recurred else
+                                       ("seen once, in the worker process that ran %d..%d; neither the single plan nor that range failed again when replayed: a failure that depends on process state (uninitialised reads, address reuse)" % (lo, v["run"]))}, f, indent=1, sort_keys=True)
                     f.write("\n")
                 log("VIOLATION property=%s replay=%s" % (prop, path))
-                log("#   class=%s: worker process dies in run %d after runs %d..%d (single plan alone does not reproduce)" % (got, v["run"], lo, v["run"] - 1))
+                if recurred:
+                    log("#   class=%s: worker process fails in run %d after runs %d..%d (single plan alone does not reproduce)" % (got, v["run"], lo, v["run"] - 1))
+                else:
+                    log("#   class=%s site=%s: %s [seen once in the worker that ran %d..%d; did not recur when replayed]" % (got, v.get("site"), v.get("msg", "")[:300], lo, v["run"]))
                 return path
+        # (no process history known: report the plan as it is)
         note = "full plan did not reproduce in a fresh process (got %s %s)" % (first["status"], first.get("class"))
-        log("# a failure of %s in run %d (%s) did not reproduce, neither alone nor with its process history; not reported" % (job.label, v["run"], target))
-        return None
+        path = write_replay(prop, job, tier, seed, v["run"], plan, v, {"minimised": False, "note": note, "reproduced_in_fresh_process": False})
+        log("VIOLATION property=%s replay=%s" % (prop, path))
+        log("#   class=%s site=%s: %s (%s)" % (v["class"], v.get("site"), v.get("msg", ""), note))
+        return path
     else:
         mini, tries = minimise(job, plan, target, tier)
     final = job.exec_plan(mini, tier)
